@@ -109,16 +109,18 @@ type Engine struct {
 	// openStmts: server-side prepared statements not closed yet (a server allows max_prepared_stmt_count of
 	// them, 16382 by default; a statement a client forgets to close stays until its connection ends)
 	openStmts int64
-	nextConn  int
-	nextTxn   int
-	journal   []Entry
-	seq       int
-	faults    []*faultState
-	fired     int
-	clock     func() time.Time
-	interp    bool  // emulate interpolateParams=true (text protocol for conn-level queries with args)
-	skipFast  bool  // emulate interpolateParams=false fully: conn-level Exec/Query with arguments answer driver.ErrSkip
-	autoStep  int64 // auto_increment_increment of this server (0 or 1: every value; offset is 1)
+	// strictBusy: a connection with an unread result set refuses other commands, as go-sql-driver/mysql does
+	strictBusy bool
+	nextConn   int
+	nextTxn    int
+	journal    []Entry
+	seq        int
+	faults     []*faultState
+	fired      int
+	clock      func() time.Time
+	interp     bool  // emulate interpolateParams=true (text protocol for conn-level queries with args)
+	skipFast   bool  // emulate interpolateParams=false fully: conn-level Exec/Query with arguments answer driver.ErrSkip
+	autoStep   int64 // auto_increment_increment of this server (0 or 1: every value; offset is 1)
 }
 
 // SetAutoIncStep sets the server's auto_increment_increment (auto_increment_offset stays 1): generated
@@ -135,14 +137,15 @@ func (e *Engine) SetAutoIncStep(n int64) {
 // New creates an empty engine for the schema dbName.
 func New(dbName string) *Engine {
 	return &Engine{
-		name:     dbName,
-		tables:   map[string]*table{},
-		locks:    map[string]map[string]*lockEnt{},
-		lockCh:   make(chan struct{}),
-		lockWait: 5 * time.Second,
-		xa:       map[string]*xaRec{},
-		sessions: map[int]*session{},
-		clock:    time.Now,
+		name:       dbName,
+		tables:     map[string]*table{},
+		locks:      map[string]map[string]*lockEnt{},
+		lockCh:     make(chan struct{}),
+		lockWait:   5 * time.Second,
+		xa:         map[string]*xaRec{},
+		sessions:   map[int]*session{},
+		strictBusy: true,
+		clock:      time.Now,
 	}
 }
 
@@ -633,6 +636,13 @@ func (e *Engine) matchFault(s *session, kind, tbl string) error {
 }
 
 // ---- inspection ----
+
+// StrictBusy switches the "busy buffer" behaviour on or off (default on).
+func (e *Engine) StrictBusy(on bool) {
+	e.mu.Lock()
+	defer e.mu.Unlock()
+	e.strictBusy = on
+}
 
 // OpenStmts is the number of prepared statements that have been prepared and not closed (statements of
 // connections that were closed meanwhile are still counted: the harness looks at differences on live pools).
